@@ -135,6 +135,32 @@ class LP(FP):
             self.eat(); self.eat()
             x = self.expr(); self.eat("op", ")")
             return f"(sd {x})"
+        if k == "id" and v == "sopnil":
+            self.eat()
+            return "([] : List (Nat × Nat))"
+        if k == "id" and v in ("sopins", "soprem") and self.peek(1) == ("op", "("):
+            # `s.insert(v)` / `self.remove(v)` on the set under construction: one more step of the script (1 insert, 0 remove)
+            self.eat(); self.eat()
+            x = self.expr(); self.eat("op", ","); y = self.expr(); self.eat("op", ")")
+            return f"({x} ++ [({1 if v == 'sopins' else 0}, {y})])"
+        if k == "id" and v == "mk_script" and self.peek(1) == ("op", "("):
+            self.eat(); self.eat()
+            x = self.expr(); self.eat("op", ","); y = self.expr(); self.eat("op", ")")
+            return f"({x}, {y})"
+        if k == "id" and v == "tinyany" and self.peek(1) == ("op", "("):
+            # `self.clone().any(|x| x == e)`: the inline iterator run to its end (`tiny_drain`), then membership
+            self.eat(); self.eat()
+            x = self.expr(); self.eat("op", ")")
+            r = f"(tiny_any_{self.suffix} self_sz self_bits {x})"
+            self.boolexprs.add(r)
+            return r
+        if k == "id" and v == "pcontains" and self.peek(1) == ("op", "("):
+            # `other.contains(i)`: the other operand's `contains` is a parameter of the translated function
+            self.eat(); self.eat()
+            x = self.expr(); self.eat("op", ")")
+            r = f"(p_contains {x})"
+            self.boolexprs.add(r)
+            return r
         if k == "id" and v == "hasword" and self.peek(1) == ("op", "("):
             self.eat(); self.eat()
             arr = self.eat("id"); self.eat("op", ","); x = self.expr(); self.eat("op", ")")
@@ -356,6 +382,27 @@ class SP:
             p.eat("op", ")")
             p.eat("op", ";")
             return ("swap", arr, i, x)
+        if self.at("whilenext"):
+            # `while let Some(x) = it.next() { .. }` over an iterator held in a variable (rewritten by the caller)
+            p.eat(); x = p.eat("id"); L = p.eat("id")
+            body = self.braced()
+            return ("whilenext", x, L, body)
+        if self.at("ifnext"):
+            # `if let Some(x) = it.next() { .. } else { .. }`
+            p.eat(); x = p.eat("id"); L = p.eat("id")
+            a = self.braced()
+            p.eat("id", "else")
+            b = self.braced()
+            return ("ifnext", x, L, a, b)
+        if self.at("letnext"):
+            # `let x = it.next().unwrap();`
+            p.eat(); x = p.eat("id"); L = p.eat("id"); p.eat("op", ";")
+            return ("letnext", x, L)
+        if self.at("forl"):
+            # `for x in it { .. }` over the rest of an iterator held in a variable
+            p.eat(); x = p.eat("id"); L = p.eat("id")
+            body = self.braced()
+            return ("forlist", x, L, body)
         if self.at("forzip"):
             # `for (x, w) in xs.iter().cloned().zip(ws.iter().cloned()) { .. }` (rewritten by the caller, shape pinned there)
             p.eat(); x = p.eat("id"); w = p.eat("id"); xs = p.eat("id"); ws = p.eat("id")
@@ -478,6 +525,12 @@ def assigned(stmts):
             out |= assigned(s[4])
         elif s[0] == "whilelt":
             out |= assigned(s[3])
+        elif s[0] == "whilenext":
+            out.add(s[2]); out |= assigned(s[3])
+        elif s[0] == "ifnext":
+            out.add(s[2]); out |= assigned(s[3]) | assigned(s[4])
+        elif s[0] == "letnext":
+            out.add(s[2])
         elif s[0] == "iflet":
             out |= assigned(s[3]) | assigned(s[4])
         elif s[0] == "matchlf":
@@ -505,12 +558,17 @@ class Gen:
             return f"(Except.error ({v}, {self.retstate}))"
         if self.retstate:
             return f"({v}, {self.retstate})"
+        if self.exc:
+            return f"(Except.ok {v})"
         if self.pure:
             return v
         if self.szvar:
             return f"(Except.ok (({v}, {self.szvar}), a))"
         return f"(Except.ok ({e}, a))"
     boolexprs = set()
+    vartypes = {}             # variables of other types (the script of an operator)
+    exc = False               # a function that may panic (`unwrap`): values are wrapped in `Except.ok`
+    listvars = set()          # iterators over a row of BITSPLITS held in variables
     inwhile = 0               # inside a `while` that may `return`: the loop function yields `Except.error value`
     retstate = None           # `&mut self` methods of a plain struct: the fields are returned with the value
     def diverges(self, s):
@@ -531,7 +589,9 @@ class Gen:
     def ty(self, x):
         if x in self.boolvars or x in self.boolexprs:
             return "Bool"
-        return dict(self.params).get(x, "List Nat" if x == "bitsplits" else "Nat")
+        if x in self.vartypes:
+            return self.vartypes[x]
+        return dict(self.params).get(x, "List Nat" if (x == "bitsplits" or x in self.listvars) else "Nat")
     def comp(self, stmts, scope, tail):
         """Lean term for the statement list; `tail`: term used when control falls off the end (None: must not)"""
         scope = list(dict.fromkeys(scope))        # a shadowing `let` keeps one entry
@@ -619,8 +679,9 @@ class Gen:
             fname = f"{self.name}_loop{idx}"
             restv = f"rest{idx}"
             muts = [x for x in scope if x in assigned(body)]
-            immut = [x for x in scope if x not in muts and x != xs]
             after = self.comp(rest, scope, tail)
+            # the iterated list itself stays a parameter only when what follows the loop still mentions it
+            immut = [x for x in scope if x not in muts and (x != xs or re.search(r'\b%s\b' % re.escape(xs), after))]
             cont = f"({fname} {' '.join(immut)} {restv} {' '.join(muts)})".replace("  ", " ")
             bodyt = self.comp(body, scope + [restv, v], cont)
             sig = " ".join(f"({x} : {self.ty(x)})" for x in immut)
@@ -630,6 +691,29 @@ class Gen:
             pats1 = ", ".join([f"{v} :: {restv}"] + muts)
             self.defs.append(f"def {fname} {sig} : {arrow}\n  | {pats0} => {after}\n  | {pats1} => {bodyt}")
             return f"({fname} {' '.join(immut)} {xs} {' '.join(muts)})".replace("  ", " ")
+        if k == "ifnext":
+            _, x, L, a, b = s
+            return (f"(match {L} with | {x} :: {L} => {self.comp(a + rest, scope + [x], tail)} "
+                    f"| [] => {self.comp(b + rest, scope, tail)})")
+        if k == "letnext":
+            _, x, L = s
+            return f'(match {L} with | {x} :: {L} => {self.comp(rest, scope + [x], tail)} | [] => (Except.error "unwrap"))'
+        if k == "whilenext":
+            _, x, L, body = s
+            self.nloops += 1
+            idx = self.nloops
+            fname = f"{self.name}_loop{idx}"
+            muts = [y for y in scope if y in assigned(body) and y != L]
+            immut = [y for y in scope if y not in muts and y != L]
+            after = self.comp(rest, scope, tail)
+            cont = f"({fname} {' '.join(immut)} {L} {' '.join(muts)})".replace("  ", " ")
+            bodyt = self.comp(body, scope + [x], cont)
+            sig = " ".join(f"({y} : {self.ty(y)})" for y in immut)
+            mty = " → ".join(self.ty(y) for y in muts)
+            ms = "".join(", " + y for y in muts)
+            self.defs.append(f"def {fname} {sig} : List Nat → {mty + ' → ' if muts else ''}{self.ret}\n"
+                             f"  | []{ms} => (let {L} : List Nat := []; {after})\n  | {x} :: {L}{ms} => {bodyt}")
+            return f"({fname} {' '.join(immut)} {L} {' '.join(muts)})".replace("  ", " ")
         if k == "whilelt":
             _, X, Y, body = s
             self.nloops += 1
@@ -971,6 +1055,99 @@ def gen_tiny_singleton(src, W, suffix):
     t = t.replace("bs10", f"(List.getD (List.getD bitsplits{suffix} 1 []) 0 0)")
     return [f"def tiny_from_singleton_{suffix} (x : Nat) : Option (Nat × Nat) := {t}"]
 
+def gen_tiny_next(src, W, suffix):
+    """`<Tiny as Iterator>::next`: the iterator over an inline word that `insert` (conversion to a table), `remove`,
+    `max` and the operators use"""
+    ty = "u64" if W == 64 else "u32"
+    m = re.search(r'impl Iterator for Tiny \{\s*type Item = %s;\s*fn next\(&mut self\) -> Option<%s> \{' % (ty, ty), src)
+    if not m:
+        raise TieError(f"cannot find <Tiny as Iterator>::next ({suffix})")
+    body = body_of(src, m.end() - 1)[0]
+    sp = SP(lex(body), W, suffix)
+    sp.p.fnames = set()
+    sp.p.lists = {"bitsplits"}
+    stmts = sp.block()
+    if sp.p.peek()[0] != "eof":
+        raise TieError(f"Tiny::next: trailing tokens {sp.p.peek()}")
+    params = [("self_sz", "Nat"), ("self_sz_spent", "Nat"), ("self_bits", "Nat"), ("self_last", "Nat")]
+    ret = "Option Nat × Nat × Nat × Nat"
+    g = Gen(f"tiny_next_{suffix}", params, ret, pure=True, props=sp.p.props)
+    g.retstate = "self_sz_spent, self_bits, self_last"
+    top = g.comp(stmts, [x for x, _ in params], None)
+    sig = " ".join(f"({x} : {t})" for x, t in params)
+    drain = (f"/-- `Iterator::any` / `for x in t` on the inline word: `next` until it answers `None` -/\n"
+             f"def tiny_drain_{suffix} (sz : Nat) : Nat → Nat → Nat → Nat → List Nat\n  | 0, _, _, _ => []\n"
+             f"  | f + 1, spent, bits, last =>\n    match tiny_next_{suffix} sz spent bits last with\n    | (none, _, _, _) => []\n"
+             f"    | (some x, spent', bits', last') => x :: tiny_drain_{suffix} sz f spent' bits' last'")
+    anyd = f"def tiny_any_{suffix} (sz bits e : Nat) : Bool := (tiny_drain_{suffix} sz (sz + 1) 0 bits 0).contains e"
+    return g.defs + [f"def tiny_next_{suffix} {sig} : {ret} := {top}", drain, anyd]
+
+def gen_tiny_insert(src, W, suffix):
+    """`Tiny::insert`: re-packing the inline word with one more member (or reporting that it is there / does not fit)"""
+    ty = "u64" if W == 64 else "u32"
+    m = re.search(r'\n    fn insert\(mut self, e: %s\) -> Option<Self> \{' % ty, src)
+    if not m:
+        raise TieError(f"cannot find Tiny::insert ({suffix})")
+    body = body_of(src, m.end() - 1)[0]
+    subs = [
+        (r'if let Some\(new_bitsplits\) = BITSPLITS\.get\(self\.sz as usize \+ 1\) \{',
+         'if self.sz as usize + 1 < BITSPLITS.len() { let new_bitsplits = BITSPLITS[self.sz as usize + 1];', 1),
+        (r'let mut new = Tiny \{\s*bits: 0,\s*sz: self\.sz \+ 1,\s*last: 0,\s*sz_spent: 0,\s*\};', 'let mut new_bits = 0; let new_sz = self.sz + 1;', 1),
+        (r'let backup = self\.clone\(\);', 'let backup_bits = self.bits;', 1),
+        (r'let mut old_iter = old_bitsplits\.iter\(\)\.cloned\(\);', 'let mut old_iter = old_bitsplits;', 1),
+        (r'let mut new_iter = new_bitsplits\.iter\(\)\.cloned\(\);', 'let mut new_iter = new_bitsplits;', 1),
+        (r'while let Some\(newb\) = new_iter\.next\(\) \{', 'whilenext newb new_iter {', 1),
+        (r'if let Some\(oldb\) = old_iter\.next\(\) \{', 'ifnext oldb old_iter {', 1),
+        (r'for oldb in old_iter \{', 'forl oldb old_iter {', 1),
+        (r'for newb in new_iter \{', 'forl newb new_iter {', 1),
+        (r'let newb = new_iter\.next\(\)\.unwrap\(\);', 'letnext newb new_iter;', 1),
+        (r'let oldb = old_iter\.next\(\)\.unwrap\(\);', 'letnext oldb old_iter;', 1),
+        (r'Some\(backup\)', 'mk_tiny(self.sz, backup_bits)', 2),
+        (r'Some\(new\)', 'mk_tiny(new_sz, new.bits)', 2),
+        (r'Some\(self\)', 'mk_tiny(self.sz, self.bits)', 1),
+        (r'self\.clone\(\)\.any\(\|x\| x == e as %s\)' % ty, 'tinyany(e)', 1),
+    ]
+    for pat, rep, cnt in subs:
+        body, n = re.subn(pat, rep, body)
+        if n != cnt:
+            raise TieError(f"Tiny::insert ({suffix}): shape: {pat} found {n} times, expected {cnt}")
+    if "Tiny {" in body or ".next()" in body or ".clone()" in body:
+        raise TieError(f"Tiny::insert ({suffix}): shape")
+    sp = SP(lex(body), W, suffix)
+    sp.p.fnames = {"log_2"}
+    sp.p.lists = {"old_bitsplits", "new_bitsplits"}
+    stmts = sp.block()
+    if sp.p.peek()[0] != "eof":
+        raise TieError(f"Tiny::insert: trailing tokens {sp.p.peek()}")
+    params = [("self_sz", "Nat"), ("self_bits", "Nat"), ("e", "Nat")]
+    ret = "Except String (Option (Nat × Nat))"
+    g = Gen(f"tiny_insert_{suffix}", params, ret, pure=True, props=sp.p.props)
+    g.exc = True
+    g.boolexprs = sp.p.boolexprs
+    g.listvars = {"old_bitsplits", "new_bitsplits", "old_iter", "new_iter"}
+    top = g.comp(stmts, [x for x, _ in params], None)
+    sig = " ".join(f"({x} : {t})" for x, t in params)
+    return g.defs + [f"def tiny_insert_{suffix} {sig} : {ret} := {top}"]
+
+def gen_insert_inline(src, W, suffix):
+    """the `Empty` and `Stack` arms of `insert` up to the point where the set has to leave the word: the glue around
+    `Tiny::from_singleton` / `Tiny::insert` / `to_usize` (shape pinned; the new tagged word and the answer are read off it)"""
+    ty = "u64" if W == 64 else "u32"
+    st = "SetU64" if W == 64 else "SetU32"
+    m = re.search(r'\n    pub fn insert\(&mut self, e: %s\) -> bool \{' % ty, src)
+    if not m:
+        raise TieError(f"cannot find insert ({suffix})")
+    body = body_of(src, m.end() - 1)[0]
+    e1 = re.search(r'InternalMut::Empty => \{\s*if let Some\(t\) = Tiny::from_singleton\(e\) \{\s*\*self = %s\(t\.to_usize\(\) as \*mut S\);\s*return true;\s*\}' % st, body)
+    s1 = re.search(r'InternalMut::Stack\(t\) => \{\s*if let Some\(newt\) = t\.insert\(e\) \{\s*\*self = %s\(newt\.to_usize\(\) as \*mut S\);\s*return newt\.sz != t\.sz;\s*\}' % st, body)
+    if not e1 or not s1:
+        raise TieError(f"insert ({suffix}): the inline arms")
+    return [f"/-- `Empty` arm: `Some((new tagged word, answer))`, or `None` where the set has to be built on the heap -/\n"
+            f"def insert_empty_{suffix} (e : Nat) : Option (Nat × Bool) := (tiny_from_singleton_{suffix} e).map (fun t => (tiny_to_usize_{suffix} t.1 t.2, true))",
+            f"/-- `Stack` arm: `Tiny::insert`, then the new word and `newt.sz != t.sz` -/\n"
+            f"def insert_stack_{suffix} (t_sz t_bits e : Nat) : Except String (Option (Nat × Bool)) := "
+            f"(tiny_insert_{suffix} t_sz t_bits e).map (fun o => o.map (fun newt => (tiny_to_usize_{suffix} newt.1 newt.2, decide (newt.1 ≠ t_sz))))"]
+
 def gen_iter_stack(isrc, W, suffix):
     """the `Stack` arm of `Inner::next` (iter.rs): one step of the iteration over an inline set"""
     ty = "u64" if W == 64 else "u32"
@@ -1090,7 +1267,96 @@ def gen_dispatch(src, W, suffix):
         out.append(f"def {name}_{suffix} (b_bits : Nat) : Nat := (if {conds[0]} then {code[v1]} else (if {conds[1]} then {code[v2]} else {code[v3]}))")
     return out
 
-def gen_loops(s64, s32, i64=None, i32=None):
+def gen_set_eq(csrc, ssrc):
+    """`PartialEq::eq` of the untyped sets (the `impl_set_methods!` macro of copyset.rs) and of `Set64<T>` (set64.rs):
+    the two `len()`s, the iteration of one operand and `contains` of the other are parameters"""
+    out = []
+    for name, src, sig_re, it, cont in (
+            ("set_eq", csrc, r'impl PartialEq for \$ty \{\s*fn eq\(&self, other: &Self\) -> bool \{', r'self\.iter\(\)', r'other\.contains\('),
+            ("set64_eq", ssrc, r'impl<T: Fits64> PartialEq for Set64<T> \{\s*fn eq\(&self, other: &Set64<T>\) -> bool \{', r'other\.0\.iter\(\)', r'self\.0\.contains\(')):
+        m = re.search(sig_re, src)
+        if not m:
+            raise TieError(f"cannot find {name}")
+        body = body_of(src, m.end() - 1)[0]
+        body, n1 = re.subn(r'self\.len\(\)', 'self_len', body)
+        body, n2 = re.subn(r'other\.len\(\)', 'other_len', body)
+        body, n3 = re.subn(r'for (\w+) in %s \{' % it, r'for \1 in p_iter.iter().cloned() {', body)
+        body, n4 = re.subn(cont, 'pcontains(', body)
+        if (n1, n2, n3, n4) != (1, 1, 1, 1) or "self." in body or "other." in body:
+            raise TieError(f"{name}: shape {(n1, n2, n3, n4)}")
+        sp = SP(lex(body), 64, "64")
+        sp.p.fnames = set()
+        stmts = sp.block()
+        if sp.p.peek()[0] != "eof":
+            raise TieError(f"{name}: trailing tokens {sp.p.peek()}")
+        params = [("self_len", "Nat"), ("other_len", "Nat"), ("p_iter", "List Nat"), ("p_contains", "Nat → Bool")]
+        g = Gen(name, params, "Bool", pure=True, props=sp.p.props)
+        g.boolexprs = sp.p.boolexprs
+        top = g.comp(stmts, [x for x, _ in params], None)
+        sig = " ".join(f"({x} : {t})" for x, t in params)
+        out += g.defs + [f"def {name} {sig} : Bool := {top}"]
+    return out
+
+def gen_operators(csrc, ssrc=None):
+    """the four operator forms of the `impl_set_methods!` macro (copyset.rs): `&a - &b`, `a - &b`, `&a | &b`, `a | &b`.
+    Each body becomes the SCRIPT it runs on the set it returns: where that set starts (0: `self` itself, 1:
+    `with_capacity_of(&self)`, 2: `with_capacity_of(&rhs)`, 3: `new()` — `Set64<T>`, whose `with_capacity` is `new()`) and the `insert` (1) / `remove` (0) calls in order; the
+    operands' `len()`, iteration and `contains` are parameters"""
+    out = []
+    forms = [
+        ("sub_ref", r"fn sub\(self, rhs: &\$ty\) -> \$ty \{", False),
+        ("sub_own", r"fn sub\(mut self, rhs: &\$ty\) -> \$ty \{", True),
+        ("bitor_ref", r"fn bitor\(self, rhs: & \$ty\) -> \$ty \{", False),
+        ("bitor_own", r"fn bitor\(mut self, rhs: & \$ty\) -> \$ty \{", True),
+    ]
+    if ssrc is not None:
+        if not re.search(r'pub fn with_capacity\(_cap: usize\) -> Self \{\s*Self::new\(\)\s*\}', ssrc):
+            raise TieError("Set64::with_capacity is no longer `new()`")
+        forms += [("set64_sub", r"fn sub\(self, rhs: &Set64<T>\) -> Set64<T> \{", False),
+                  ("set64_bitor", r"fn bitor\(self, rhs: &Set64<T>\) -> Set64<T> \{", False)]
+    for name, sig_re, own in forms:
+        src_ = ssrc if name.startswith("set64_") else csrc
+        m = re.search(sig_re, src_)
+        if not m:
+            raise TieError(f"cannot find operator {name}")
+        body = body_of(src_, m.end() - 1)[0]
+        subs = [
+            (r"let mut s = Set64::with_capacity\(self\.len\(\)\);", "let s_start = 3; let mut s_ops = sopnil;"),
+            (r"let mut s: Set64<T> = Set64::with_capacity\(self\.len\(\) \+ rhs\.len\(\)\);", "let s_start = 3; let mut s_ops = sopnil;"),
+            (r"!rhs\.contains\(&(\w+)\)", r"!pcontains(\1)"),
+            (r"let mut s = <\$ty>::with_capacity_of\(&self\);", "let s_start = 1; let mut s_ops = sopnil;"),
+            (r"let mut s: \$ty = if self\.len\(\) > rhs\.len\(\) \{\s*<\$ty>::with_capacity_of\(&self\)\s*\} else \{\s*<\$ty>::with_capacity_of\(&rhs\)\s*\};",
+             "let s_start = if self_len > rhs_len { 1 } else { 2 }; let mut s_ops = sopnil;"),
+            (r"for (\w+) in self\.iter\(\) \{", r"for \1 in p_lhs.iter().cloned() {"),
+            (r"for (\w+) in rhs\.iter\(\) \{", r"for \1 in p_rhs.iter().cloned() {"),
+            (r"!rhs\.contains\((\w+)\)", r"!pcontains(\1)"),
+            (r"\bs\.insert\((\w+)\);", r"s_ops = sopins(s_ops, \1);"),
+            (r"self\.insert\((\w+)\);", r"s_ops = sopins(s_ops, \1);"),
+            (r"self\.remove\((\w+)\);", r"s_ops = soprem(s_ops, \1);"),
+            (r"\n\s*(?:s|self)\s*$", "\n mk_script(s_start, s_ops)"),
+        ]
+        for pat, rep in subs:
+            body = re.sub(pat, rep, body)
+        if own:
+            body = "let s_start = 0; let mut s_ops = sopnil;" + body
+        if re.search(r'\bself\.|\brhs\.', body) or "$ty" in body or "mk_script" not in body:
+            raise TieError(f"operator {name}: shape: {body.strip()[:120]}")
+        sp = SP(lex(body), 64, "64")
+        sp.p.fnames = set()
+        stmts = sp.block()
+        if sp.p.peek()[0] != "eof":
+            raise TieError(f"operator {name}: trailing tokens {sp.p.peek()}")
+        params = [("self_len", "Nat"), ("rhs_len", "Nat"), ("p_lhs", "List Nat"), ("p_rhs", "List Nat"), ("p_contains", "Nat → Bool")]
+        ret = "Nat × List (Nat × Nat)"
+        g = Gen(name, params, ret, pure=True, props=sp.p.props)
+        g.boolexprs = sp.p.boolexprs
+        g.vartypes = {"s_ops": "List (Nat × Nat)"}
+        top = g.comp(stmts, [x for x, _ in params], None)
+        sig = " ".join(f"({x} : {t})" for x, t in params)
+        out += g.defs + [f"def {name} {sig} : {ret} := {top}"]
+    return out
+
+def gen_loops(s64, s32, i64=None, i32=None, csrc=None, ssrc=None):
     out = ["import TinysetModel.Generated.Fns", "import TinysetModel.Generated.Consts",
            "/-! GENERATED by /verif/tools/gen_loops.py from src/setu64.rs and src/setu32.rs — do not edit.",
            "The Robin-Hood primitives `p_lookfor`, `p_insert`, `p_remove` translated statement by statement (see the",
@@ -1128,16 +1394,23 @@ def gen_loops(s64, s32, i64=None, i32=None):
         out += gen_dispatch(src, W, suffix)
         out += gen_tiny_new(src, W, suffix)
         out += gen_tiny_singleton(src, W, suffix)
+        out += gen_tiny_next(src, W, suffix)
+        out += gen_tiny_insert(src, W, suffix)
+        out += gen_insert_inline(src, W, suffix)
         isrc = i64 if W == 64 else i32
         if isrc is not None:
             out += gen_iter_stack(isrc, W, suffix)
             out += gen_iter_big(isrc, W, suffix)
             out += gen_iter_arm(isrc, src, W, suffix, "heap")
             out += gen_iter_arm(isrc, src, W, suffix, "dense")
+    if csrc is not None and ssrc is not None:
+        out += gen_set_eq(csrc, ssrc)
+        out += gen_operators(csrc, ssrc)
     out.append("end Gen")
     return "\n".join(out) + "\n"
 
 if __name__ == "__main__":
     import sys
     print(gen_loops(open("/repo/src/setu64.rs").read(), open("/repo/src/setu32.rs").read(),
-                    open("/repo/src/setu64/iter.rs").read(), open("/repo/src/setu32/iter.rs").read()))
+                    open("/repo/src/setu64/iter.rs").read(), open("/repo/src/setu32/iter.rs").read(),
+                    open("/repo/src/copyset.rs").read(), open("/repo/src/set64.rs").read()))
